@@ -19,7 +19,7 @@ Property oracle on the real code alone (ctx.violation), for every operation on a
       session had; strict (detached) -> DatabaseSessionIsOver;
   R5  obj.flush() with something pending: DatabaseSessionIsOver.
 """
-import os, sqlite3, json, itertools
+import os, sqlite3, json, itertools, threading
 
 from pony.orm import Database, Required, Optional, Set, PrimaryKey, Json, db_session, commit, rollback, flush
 from pony.orm import core
@@ -582,6 +582,56 @@ def diff_worlds(pre, post):
 # run
 # ---------------------------------------------------------------------------------------------------------------------
 
+def in_other_thread(f):
+    def g():
+        box = {}
+        def t():
+            try: box['r'] = ('ok', f())
+            except BaseException as e: box['r'] = ('err', e)
+        th = threading.Thread(target=t, name='c32-other'); th.start(); th.join()
+        if box['r'][0] == 'err': raise box['r'][1]
+        return box['r'][1]
+    return g
+
+
+def two_sessions(ctx, E, scripts):
+    """objects of TWO different finished sessions in one call (oracle only: the model has one cache per world):
+    a.coll.add(b) / a.coll.remove(b) / a.ref = b must be refused and change neither object; `b in a.coll` must not touch the database"""
+    for script in scripts:
+        if script[0] == 'failed_flush': continue
+        for strict in (False, True):
+            A, _ = run_session(E, script, 'commit', strict)
+            keepA = list(A.objs)
+            B, _ = run_session(E, script, 'commit', strict)
+            for a in keepA:
+                for attr in type(a)._attrs_:
+                    if attr.is_discriminator or attr.pk_offset is not None or not attr.reverse: continue
+                    bs = [b for b in B.objs if isinstance(b, attr.py_type)][:2]
+                    for b in bs:
+                        if attr.is_collection:
+                            w = wrapper_of(a, attr)
+                            calls = [('add', lambda: w.add(b), True), ('remove', lambda: w.remove(b), True), ('contains', lambda: b in w, False)]
+                        else:
+                            calls = [('assign', lambda: setattr(a, attr.name, b), True)]
+                        for name, f, mut in calls:
+                            preA = canon_world(A.snapshot()); preB = canon_world(B.snapshot()); m = E.tr.mark()
+                            try: f(); err = None
+                            except core.DatabaseSessionIsOver: err = 'DatabaseSessionIsOver'
+                            except core.OperationWithDeletedObjectError: err = 'OperationWithDeletedObjectError'
+                            except Exception as e: err = type(e).__name__
+                            ev = E.tr.db_events(E.tr.since(m))
+                            changed = strip_rbits(canon_world(A.snapshot())) != strip_rbits(preA) or strip_rbits(canon_world(B.snapshot())) != strip_rbits(preB)
+                            inp = {'script': script[0], 'strict': strict, 'op': name, 'attr': attr.name, 'a': repr(a), 'b': repr(b), 'two_sessions': True}
+                            ctx.case(['two-sessions', script[0], strict, name, attr.name, a._status_, b._status_], kind='two-sessions:' + name)
+                            if ev:
+                                ctx.violation('an operation mixing objects of two finished sessions used the database', inp, observed=[[e['call'], e['kind']] for e in ev], expected='no DB-API call', key='two-sessions:dbapi:%s' % name)
+                            if changed:
+                                ctx.violation('an operation mixing objects of two finished sessions changed an object', inp, observed=err, expected='unchanged', key='two-sessions:changed:%s' % name)
+                            if mut and err not in ('DatabaseSessionIsOver', 'OperationWithDeletedObjectError'):
+                                ctx.violation('a modification mixing objects of two finished sessions was not refused with a session-is-over error', inp,
+                                              observed=err or 'no error', expected='DatabaseSessionIsOver', key='two-sessions:%s:%s' % (name, err or 'no-error'))
+
+
 def explore(ctx, E, scripts, stricts, ambients, target_limit=None, ambient_scripts=None):
     """returns the list of pending model checks: (request, real outcome, real post-state, case)"""
     pending = []
@@ -593,7 +643,12 @@ def explore(ctx, E, scripts, stricts, ambients, target_limit=None, ambient_scrip
                 for ambient in ambients:
                     if ambient and ambient_scripts is not None and script[0] not in ambient_scripts: continue
                     R, how = run_session(E, script, ending, strict)
+                    # a third of the runs: every operation is made by ANOTHER thread than the one that ran the session (the thread-local
+                    # registry of that thread is empty: the liveness guards must answer before the cross-thread guards are reached)
+                    other_thread = ctx.rng.random() < 0.33
+                    ctx.count('operations-from-another-thread' if other_thread else 'operations-from-the-session-thread')
                     case = {'script': script[0], 'ending': ending, 'strict': strict}
+                    if other_thread: case['thread'] = 'other'
                     if ending in ('commit_fault', 'commit_locked') and how != 'CommitException':
                         # nothing was written: no COMMIT is sent at the exit, nothing can fail — the run equals the `commit` ending
                         ctx.count('ending-kind:%s:no-COMMIT-sent (same as commit, not repeated)' % ending); continue
@@ -629,9 +684,9 @@ def explore(ctx, E, scripts, stricts, ambients, target_limit=None, ambient_scrip
                             if ambient:
                                 def call(fn=fn):
                                     with db_session: return fn()
-                                out = real_outcome(R, call, kind)
-                            else:
-                                out = real_outcome(R, fn, kind)
+                            else: call = fn
+                            if other_thread: call = in_other_thread(call)
+                            out = real_outcome(R, call, kind)
                             events = E.tr.db_events(E.tr.since(m))
                             post = canon_world(R.snapshot()); xpost = R.extra()
                             dump_post = E.dump()
@@ -751,6 +806,7 @@ def run(ctx):
         check_model(ctx, pending)
         witnesses(ctx, E)
         witness_json(ctx, E)
+        two_sessions(ctx, E, scripts if ctx.thorough else scripts[::2])
         ctx.extra['violation_keys'] = sorted(v['key'] for v in ctx.violations)
         ctx.extra['sessions'] = sum(v for k, v in ctx.counters.items() if k.startswith('ending:'))
     finally:
